@@ -293,11 +293,19 @@ func apiValidate(tr *tracer.T, cases [][]byte, only int) {
 				op = &regattapb.RequestOp{Request: &regattapb.RequestOp_RequestRange{RequestRange: &regattapb.RequestOp_Range{Key: keyOf("ok", n)}}}
 			case "emptyoneof":
 				op = &regattapb.RequestOp{}
+			case "range_neglimit":
+				op = &regattapb.RequestOp{Request: &regattapb.RequestOp_RequestRange{RequestRange: &regattapb.RequestOp_Range{Key: []byte{0}, RangeEnd: []byte{0}, Limit: -1}}}
+			case "range_ko_co":
+				op = &regattapb.RequestOp{Request: &regattapb.RequestOp_RequestRange{RequestRange: &regattapb.RequestOp_Range{Key: []byte{0}, RangeEnd: []byte{0}, KeysOnly: true, CountOnly: true}}}
+			case "range_overkey":
+				op = &regattapb.RequestOp{Request: &regattapb.RequestOp_RequestRange{RequestRange: &regattapb.RequestOp_Range{Key: keyOf("over", n)}}}
 			}
 			marker := put([]byte("txn-marker"), []byte("m")) // makes the transaction a write even if op is a read
 			t := &regattapb.TxnRequest{Table: tableOf(r.Table)}
 			// no predicate: the success branch is the executed one
-			if r.Branch == "executed" {
+			if strings.HasPrefix(r.Nested, "range_") && n%2 == 0 {
+				t.Success = []*regattapb.RequestOp{op} // a read-only transaction (served outside the log)
+			} else if r.Branch == "executed" {
 				t.Success = []*regattapb.RequestOp{marker, op}
 			} else {
 				t.Success = []*regattapb.RequestOp{marker}
@@ -328,9 +336,18 @@ func apiValidate(tr *tracer.T, cases [][]byte, only int) {
 		}
 		tr.Emit(map[string]any{"ev": "case", "n": n, "r": raw, "code": code, "changed": before != after, "alive": alive && !strings.HasPrefix(after, "ERR:")})
 		if !alive {
-			die("server child died on case %d: %s", n, child.out.String())
+			// the observation "a request terminated the serving process" has been recorded; nothing more can be sent
+			fmt.Fprintf(os.Stderr, "server child died on case %d: %s\n", n, tailOf(child.out.String(), 2000))
+			return
 		}
 	}
+}
+
+func tailOf(s string, n int) string {
+	if len(s) > n {
+		return s[len(s)-n:]
+	}
+	return s
 }
 
 // rawCodec sends the bytes it is given as the message body (content-subtype "proto": the server decodes them
@@ -413,7 +430,8 @@ func apiFuzz(tr *tracer.T, n int, seed int64) {
 		tr.Emit(map[string]any{"ev": "fuzz", "n": i, "method": method, "len": len(body), "code": status.Code(err).String(), "changed": before != after,
 			"alive": alive && !strings.HasPrefix(after, "ERR:")})
 		if !alive {
-			die("server child died on fuzz case %d (%s, %x): %s", i, method, body, leader.out.String())
+			fmt.Fprintf(os.Stderr, "server child died on fuzz case %d (%s, %x): %s\n", i, method, body, tailOf(leader.out.String(), 2000))
+			return
 		}
 	}
 }
